@@ -71,6 +71,8 @@ LAT_AROUND = [0.01, 0.02, 0.05, 0.3, 0.79, 0.81, 1.5, 2.9, 2.99, 3.01, 3.1, 4.9,
 
 
 def generate(plan) -> None:
+    if plan.d["scenario"] == "scripted":
+        return generate_scripted(plan)
     r = plan.rng("gen")
     k = plan.d["knobs"]
     k["drift"] = 0.0
@@ -130,6 +132,8 @@ BIND_ERRORS = (rexc.BindingError, texc.ProtocolSendFailed, texc.ProtocolError)
 
 
 async def run(ctx) -> None:
+    if ctx.plan.d["scenario"] == "scripted":
+        return await run_scripted(ctx)
     plan, loop, hub = ctx.plan, ctx.loop, ctx.hub
     k = plan.knob
     flow = FLOWS[k("flow")]
@@ -380,6 +384,212 @@ async def run(ctx) -> None:
     ctx.ab(f"{k('flow')}|{mode}")
     ctx.sample = {"flow": k("flow"), "mode": mode, "start_gap": k("start_gap"), "first": {n: (v[0], round(v[2], 2)) for n, v in res1.items()},
                   "second": {n: (v[0], round(v[2], 2)) for n, v in res2.items()}, "wire_frames_second": len(wire)}
+
+
+# ---------------------------------------------------------------------------------------------------------------
+# one side scripted: a real RF device (3x repeats with 20-60 ms gaps, its own latencies, an Orcon-style offer to 63:262142)
+# ---------------------------------------------------------------------------------------------------------------
+
+def generate_scripted(plan) -> None:
+    r = plan.rng("gen")
+    k = plan.d["knobs"]
+    k["drift"] = 0.0
+    k["min_gap"] = 0.05
+    k["flow"] = r.choice(sorted(FLOWS))
+    k["real"] = r.choice(["resp", "supp"])
+    k["fault_free"] = r.random() < 0.15
+    ff = k["fault_free"]
+    k["tie_rate"] = 0.0 if ff else r.choice([0.0, 0.5])
+    k["split_rate"] = 0.0
+    k["offer_to_all"] = (not ff) and k["real"] == "resp" and r.random() < 0.4  # dst = 63:262142, as Orcon remotes do
+    rep = (lambda: 1) if ff else (lambda: r.choice([1, 2, 3, 3]))
+    gap = (lambda: 0.03) if ff else (lambda: r.choice([0.0, 0.02, 0.04, 0.06, 0.3]))
+    lat = (lambda: 0.05) if ff else (lambda: r.choice([0.015, 0.02, 0.05, 0.3, 0.79, 0.81, 1.5, 2.9, 2.99, 3.05, 4.9, 5.05, 5.2]))
+    k["script"] = {ph: {"n": rep(), "gap": gap(), "lat": lat(), "lost": (not ff) and r.random() < 0.12}
+                   for ph in ("offer", "accept", "confirm", "addenda")}
+    k["late_offer_repeat"] = (not ff) and r.random() < 0.4  # the 2nd/3rd copy of the offer arrives after our accept
+    k["start_gap"] = r.choice([0.0, 0.05, 1.0, 4.9, 5.2])
+    ops = plan.d["ops"]
+    if not ff:
+        for _ in range(r.choice([0, 0, 1, 2])):
+            ops.append({"op": "third", "at": round(r.choice([0.0, 0.1, 0.5, 1.0, 3.0]) + r.random() * 0.05, 3),
+                        "kind": r.choice(["accept_other", "confirm_other", "offer_late"])})
+
+
+async def run_scripted(ctx) -> None:
+    plan, loop, hub = ctx.plan, ctx.loop, ctx.hub
+    k = plan.knob
+    flow = FLOWS[k("flow")]
+    pk = list(flow["pkts"])
+    real = k("real")
+    sc = {ph: dict(v) for ph, v in k("script").items()}  # (a copy: the second attempt resets it; the plan stays as drawn)
+    late_repeat = [bool(k("late_offer_repeat"))]
+    T.MIN_INTER_WRITE_GAP = k("min_gap", 0.05)
+    T.serial_for_url = hub.serial_for_url
+    ser = hub.add_port("/dev/simR", GID_R)
+    known = {**flow["resp"], **flow["supp"], **{v: {} for v in THIRD.values()}}
+    r_id, s_id = next(iter(flow["resp"])), next(iter(flow["supp"]))
+    if real == "resp":  # the supplicant is a real RF device, not one of ours
+        known[s_id] = {kk: v for kk, v in known[s_id].items() if kk != "faked"}
+    cfg = {"disable_discovery": True, "disable_qos": False, "enforce_known_list": True}
+    gwy = Gateway("/dev/simR", config=cfg, known_list={i: dict(v) for i, v in known.items()},
+                  orphans_hvac=[r_id if real == "resp" else s_id])
+    await gwy.start()
+    await asyncio.sleep(0.5)
+    dev = gwy.device_by_id[r_id if real == "resp" else s_id]
+    ensure_fakeable(dev)
+    if k("offer_to_all"):
+        pk[0] = pk[0][:17] + "63:262142 --:------" + pk[0][36:]
+    ratify = len(pk) > 3
+    t0 = loop.time()
+    air: list[str] = []          # everything the scripted device put on the air, in order
+    wire: list[str] = []         # handshake frames our gateway transmitted
+    lossy = [False]
+    late = [False]
+    n_exc = [0]
+
+    def say(phase: str, frame: str, base_delay: float = 0.0) -> None:
+        p = sc[phase]
+        if p["lost"]:
+            hub.count("rf_drop")
+            lossy[0] = True
+            return
+        air.append(frame)
+        for i in range(p["n"]):
+            hub.rx_line(ser, frame, base_delay + p["lat"] + i * p["gap"])
+        if p["n"] > 1:
+            hub.count("rf_dup")
+        if p["lat"] > 0.7:
+            hub.count("rf_delay")
+            late[0] = True
+
+    heard = {"offer": False, "accept": False, "confirm": False}
+
+    def on_frame(ser_, frame, nth):
+        line = frame.decode("latin-1")
+        if " 1FC9 " not in line and " 10E0 " not in line:
+            return
+        wire.append(line)
+        ph = phase_of(line)
+        if real == "resp" and ph == "accept" and not heard["accept"]:
+            heard["accept"] = True
+            if late_repeat[0] and not sc["offer"]["lost"]:
+                hub.rx_line(ser, pk[0], 0.03)  # a straggling copy of the offer
+                hub.count("late_offer_repeat")
+            say("confirm", pk[2])
+            if ratify:
+                say("addenda", pk[3], sc["confirm"]["lat"] + 0.06)
+        elif real == "supp" and ph == "offer" and not heard["offer"]:
+            heard["offer"] = True
+            say("accept", pk[1])
+
+    hub.on_frame = on_frame
+    on_air3: list[str] = []
+
+    def third(kind: str):
+        c, t_, rm = THIRD["ctl"], THIRD["thm"], THIRD["rem"]
+        fr = {"offer_late": f" I --- {rm} --:------ {rm} 1FC9 012 0022F1{0x96599C:06X}001FC9{0x96599C:06X}",
+              "accept_other": f" W --- {c} {t_} --:------ 1FC9 006 002309{0x06368F:06X}",
+              "confirm_other": f" I --- {t_} {c} --:------ 1FC9 006 002309{0x8BF591:06X}"}[kind]
+        if kind == "offer_late" and real == "resp" and not heard["accept"]:
+            lossy[0] = True  # a competing supplicant while we still listen for offers: either may win
+        hub.count("third_party")
+        on_air3.append(fr)
+        hub.rx_line(ser, fr)
+
+    handles = [loop.call_later(o["at"], third, o["kind"]) for o in plan.ops if o["op"] == "third"]
+    acc = pk[1][46:]
+    res: dict = {}
+
+    async def attempt():
+        ts = loop.time()
+        try:
+            if real == "resp":
+                coro = dev._wait_for_binding_request(codes_of(acc, skip=()), idx=acc[:2], require_ratify=ratify)
+                bound = 25.0
+            else:
+                oc = [c for c in codes_of(pk[0][46:]) if c != "10E0"]
+                coro = dev._initiate_binding_process(oc, confirm_code=pk[2][48:52] or None, ratify_cmd=Command(pk[3]) if ratify else None)
+                bound = 50.0
+            out = await asyncio.wait_for(coro, bound + 30)
+            return ("ok", out, loop.time() - ts, bound)
+        except TimeoutError:
+            return ("hang", None, loop.time() - ts, bound)
+        except BaseException as err:  # noqa
+            return ("exc", err, loop.time() - ts, bound)
+
+    task = loop.create_task(attempt())
+    if real == "resp":
+        sg = k("start_gap", 0.0)
+        if sg >= 4.9:
+            late[0] = True
+        loop.call_later(sg, say, "offer", pk[0])
+    st, val, dur, bound = await task
+    strict = not lossy[0] and not late[0]
+    name = real
+    ctx.ab(f"{real}:{st}:{'strict' if strict else 'lossy'}")
+    if st == "hang":
+        ctx.violate("C20", "never_ends", name, f"scripted peer: the {name}'s attempt had not ended after {dur:.1f} s")
+    elif st == "exc":
+        if isinstance(val, asyncio.CancelledError) or not isinstance(val, BIND_ERRORS):
+            ctx.violate("C20", "wrong_exception", f"{name}:{exc_sig(val)}", f"scripted peer: the {name}'s attempt ended with "
+                        f"{type(val).__name__}({str(val)[:200]}), which is not a binding error")
+        elif strict:
+            ctx.violate("C20", "failed_without_loss", f"{name}:{type(val).__name__}", f"scripted peer ({sc}): nothing was lost or late but the "
+                        f"{name} failed: {type(val).__name__}({str(val)[:300]})")
+        if dur > bound:
+            ctx.violate("C20", "ends_late", name, f"scripted peer: the {name}'s attempt took {dur:.1f} s to fail (bound {bound} s)")
+    else:
+        if dur > bound:
+            ctx.violate("C20", "ends_late", name, f"scripted peer: the {name}'s attempt took {dur:.1f} s (bound {bound} s)")
+        got = [str(p) if p is not None else None for p in val[:4 if ratify else 3]]
+        if real == "resp":
+            want = [pk[0], next((w for w in wire if phase_of(w) == "accept"), None), pk[2]] + ([pk[3]] if ratify else [])
+        else:
+            want = [next((w for w in wire if phase_of(w) == "offer"), None), pk[1],
+                    next((w for w in wire if phase_of(w) == "confirm"), None)] + ([next((w for w in wire if phase_of(w) == "addenda"), None)] if ratify else [])
+        if got != want and not on_air3:
+            i = next(i for i in range(len(want)) if i >= len(got) or got[i] != want[i])
+            ctx.violate("C20", "wrong_tuple", f"{name}:{i}", f"scripted peer: the {name} reports {got} but the handshake on the air was {want} "
+                        f"(scripted device sent {air}; gateway sent {wire})")
+        elif got != want:
+            ctx.probe("tuple_differs_with_third_party_traffic_(not_judged)")
+        ctx.probe("scripted_bound")
+    await asyncio.sleep(6.0)
+    if dev._bind_context.is_binding:
+        ctx.violate("C20", "still_binding", name, f"scripted peer: after its attempt ended the {name} is still binding: {dev._bind_context!r}")
+    for e in ctx.loop_excs[n_exc[0]:]:
+        ctx.violate("C20", "loop_exception", e["sig"], f"scripted peer: the event loop's exception handler got {e['type']}: {e['text'][:200]} "
+                    f"({e['message'][:100]})")
+    n_exc[0] = len(ctx.loop_excs)
+    # a second attempt, clean
+    for h in handles:
+        h.cancel()
+    for ph in sc:
+        sc[ph].update({"n": 1, "gap": 0.0, "lat": 0.05, "lost": False})
+    heard.update({"offer": False, "accept": False, "confirm": False})
+    wire.clear()
+    air.clear()
+    on_air3.clear()
+    late_repeat[0] = False
+    task = loop.create_task(attempt())
+    if real == "resp":
+        loop.call_later(0.05, say, "offer", pk[0])
+    st, val, dur, bound = await task
+    if st != "ok":
+        ctx.violate("C20", "retry_failed", f"{name}:{st}", f"scripted peer: a second, fault-free attempt by the {name} ended with {st} "
+                    f"{type(val).__name__ if val is not None else ''}({str(val)[:300]})")
+    await asyncio.sleep(6.0)
+    if dev._bind_context.is_binding:
+        ctx.violate("C20", "still_binding", name, f"scripted peer: after the second attempt the {name} is still binding")
+    await gwy.stop()
+    await asyncio.sleep(0.1)
+    gc.collect()
+    for e in ctx.loop_excs[n_exc[0]:]:
+        ctx.violate("C20", "loop_exception", e["sig"], f"scripted peer, second attempt/teardown: {e['type']}: {e['text'][:200]}")
+    ctx.nontrivial = not k("fault_free")
+    ctx.ab(f"{k('flow')}|{k('offer_to_all')}|{k('late_offer_repeat')}")
+    ctx.sample = {"scenario": "scripted", "flow": k("flow"), "real_side": real, "script": k("script"), "offer_to_63": k("offer_to_all")}
 
 
 def on_hang(ctx, where: str, pending: list[str]) -> None:
